@@ -281,6 +281,51 @@ func init() {
 			c.Fact("sessions.stateless_header_reads", map[string]int{"total": reads, "under_legacy_flag": guarded})
 			c.Fact("sessions.stateless_calls", callSeq(c, fd.Body, []string{"lookupSession", "GetSessionID", "connectStreamable", "Close", "ServeHTTP", "serveStatelessLegacyDELETE", "serveEphemeral"}))
 		}
+		// the compatibility path of a stateless endpoint (MCPGODEBUG allowsessionsinstateless=1): DELETE is a
+		// no-op that only demands an id; a POST's temporary session gets the request's id, or a minted one
+		if fd := c.Func(dir, "StreamableHTTPHandler", "serveStatelessLegacyDELETE"); fd != nil {
+			if is := ifWithCond(c, fd.Body, `sessionID == ""`); is != nil {
+				e := httpErrorsIn(c, is.Body)
+				get("statelessLegacyDeleteMissingID", first(e), len(e) == 1)
+			} else {
+				get("statelessLegacyDeleteMissingID", 0, false)
+			}
+			e := httpErrorsIn(c, fd.Body)
+			get("statelessLegacyDeleteOK", last(e), len(e) == 2)
+			c.Fact("sessions.legacy_delete_calls", callSeq(c, fd.Body, []string{"lookupSession", "Close", "Get", "Lock", "delete"}))
+		} else {
+			get("statelessLegacyDeleteMissingID", 0, false)
+			get("statelessLegacyDeleteOK", 0, false)
+		}
+		if fd := c.Func(dir, "StreamableHTTPHandler", "serveStateless"); fd != nil {
+			src := []string{"<no legacy id branch>"}
+			if is := ifWithCond(c, fd.Body, "legacySessions && !info.usesNewProtocol"); is != nil {
+				src = callSeq(c, is.Body, []string{"Get", "GetSessionID"})
+				if inner := ifWithCond(c, is.Body, `sessionID == ""`); inner != nil {
+					src = append(src, "minted-only-if-absent")
+				}
+			}
+			c.Fact("sessions.legacy_id_source", src)
+			flag := ""
+			if len(fd.Body.List) > 0 {
+				flag = c.Src(fd.Body.List[0])
+			}
+			c.Fact("sessions.legacy_flag", flag)
+		}
+		// the creation path of a stateful endpoint whose GetSessionID returns "": a temporary session, never published
+		if fd := c.Func(dir, "StreamableHTTPHandler", "serveStatefulPOST"); fd != nil {
+			calls := []string{"<no empty-id branch>"}
+			returns := false
+			for _, s := range fd.Body.List {
+				if is, ok := s.(*ast.IfStmt); ok && c.Src(is.Cond) == `sessionID == ""` {
+					calls = callSeq(c, is.Body, []string{"ephemeralConnectOpts", "connectStreamable", "serveEphemeral", "startPOST", "AfterFunc"})
+					if n := len(is.Body.List); n > 0 {
+						_, returns = is.Body.List[n-1].(*ast.ReturnStmt)
+					}
+				}
+			}
+			c.Fact("sessions.empty_id_is_ephemeral", map[string]any{"calls": calls, "returns_before_publication": returns})
+		}
 		if fd := c.Func(dir, "StreamableHTTPHandler", "serveStateful"); fd != nil {
 			var def *ast.CaseClause
 			ast.Inspect(fd.Body, func(x ast.Node) bool {
